@@ -317,6 +317,46 @@ def table_state():
     return {k[i]: m.group(i + 1) == "true" for i in range(6)}, out
 
 
+def failed_attempt_traces(docs):
+    """In-process: run the real parser on every document with update_schemas_with_data / process_model wrapped; for every FAILED attempt record the
+    observable state of the Schemas object the caller keeps using (keys of classes_by_name, keys of classes_by_reference, identities of
+    models_to_process, keys of dependencies) before and after.  -> [(doc index, phase, name, before, after)]"""
+    import openapi_python_client.parser.properties as P
+    from lib import impl
+    log = []
+    cur = [0]
+
+    def snap(sc):
+        return (sorted(map(str, sc.classes_by_name)), sorted(map(str, sc.classes_by_reference)), [f"{m.class_info.name}@{i}" for i, m in enumerate(sc.models_to_process)],
+                sorted(map(str, sc.dependencies)))
+    orig_u, orig_p = P.update_schemas_with_data, P.process_model
+
+    def wu(*, ref_path, data, schemas, config):
+        b = snap(schemas)
+        r = orig_u(ref_path=ref_path, data=data, schemas=schemas, config=config)
+        if isinstance(r, P.PropertyError):
+            log.append((cur[0], "create", str(ref_path), b, snap(schemas)))
+        return r
+
+    def wp(model_prop, *, schemas, config):
+        b = snap(schemas)
+        r = orig_p(model_prop, schemas=schemas, config=config)
+        if isinstance(r, P.PropertyError):
+            log.append((cur[0], "process", str(model_prop.name), b, snap(schemas)))
+        return r
+    P.update_schemas_with_data, P.process_model = wu, wp
+    try:
+        for i, d in enumerate(docs):
+            cur[0] = i
+            try:
+                impl.parse_doc(d)
+            except Exception:   # a crash is C06's business
+                pass
+    finally:
+        P.update_schemas_with_data, P.process_model = orig_u, orig_p
+    return log
+
+
 def all_orders(d, cap=24):
     """the document under EVERY order of components.schemas x every order of paths (when that product is <= cap; otherwise every order of the
     schemas, the paths alternately in original / reversed order).  First element: the document itself."""
@@ -342,14 +382,14 @@ def run(run, tier, replay=None):
     rng = run.rng
     quick = tier == "quick"
     seeds = [0, 1, 2, 3, 4, 5] if quick else list(range(16))
-    n_random = 14 if quick else 60
+    n_random = 10 if quick else 60
     n_perm = 5 if quick else 8            # orders of components.schemas/paths per document incl. the original one; one more variant permutes media types only
     order_seeds = seeds[:2] if quick else seeds[:6]   # hash seeds under which ALL orders are generated (the other seeds: original order only)
     hook_seeds = [] if quick else [0, 1, 2, 3]
     have_ruff = os.path.exists("/venv/bin/ruff")
     run.rule = ("documents = fixed corpus (minimal witnesses of the known findings, allOf chain with parents after children, one model shared as multipart/json/form body and response by "
                 "operations on different paths, name pressure between schemas and between operations; corpus_order(): allOf child/parent pairs and chains whose child name is a suffix of the parent's, same-class-name twin "
-                "string/int enums in schemas and query parameters - these under EVERY order of components.schemas x paths) + %d random structured documents (gen/docs.py: 3-12 schemas, 2-10 operations, several "
+                "string/int enums in schemas and query parameters, corpus_retry(): union / array-of-union / allOf components whose inline object member precedes a $ref to a later component - these under EVERY order of components.schemas x paths) + %d random structured documents (gen/docs.py: 3-12 schemas, 2-10 operations, several "
                 "operations per path, forward refs, allOf parents after children, mutual refs, unions of models, hub models with >=2 lazy imports, models shared as bodies under different media types "
                 "and as responses, request bodies with several media types, inline body schemas minting class names, suffix-named allOf families, twin string enums); each document x %d orders of components.schemas / paths / operations inside a "
                 "path item (original, reversed, random) + 1 variant permuting only the media types inside request bodies, under PYTHONHASHSEED in %s (all orders) and the original order under %s, "
@@ -384,10 +424,10 @@ def run(run, tier, replay=None):
         return [d, gdocs.permute(d, rng, "reversed")] + [gdocs.permute(d, rng) for _ in range(n_perm - 2)] + [gdocs.permute(d, rng, "media")]
     for name, d in gdocs.corpus():
         doc_list.append((name, variants(d), ["corpus"]))
-    for name, d in gdocs.corpus_order():
+    for name, d in gdocs.corpus_order() + gdocs.corpus_retry():
         doc_list.append((name, all_orders(d) + [gdocs.permute(d, rng, "media")], ["corpus", "all-permutations"]))
     for i in range(n_random):
-        d, feats = gdocs.gen_document_order(rng, pressure=(i % 6 == 5))
+        d, feats = gdocs.gen_document_c12(rng, pressure=(i % 6 == 5))
         doc_list.append((f"rand{i}", variants(d), feats))
 
     # ---- generate everything (fresh interpreter per (document, seed))
@@ -500,11 +540,33 @@ def run(run, tier, replay=None):
                 for t, p, site in emission_terms(res, tree):
                     terms.append(t)
                     meta.append({"doc_name": name, "order": 0, "file": p, "site": site, "doc": vs[0], "seed": seeds[1]})
+    # a failed attempt of the fix-point loops hands back the pre-attempt state (Retry.round: a node that is not ready leaves `done` untouched):
+    # classes_by_name / classes_by_reference / models_to_process unchanged; dependencies may only grow (it is extended in place, by design)
+    n_emit = len(terms)
+    fa_docs, fa_meta = [], []
+    for di, (name, vs, feats) in enumerate(doc_list):
+        for vi in range(len(vs) if "all-permutations" in feats else min(len(vs), 3)):
+            fa_docs.append(vs[vi])
+            fa_meta.append((name, vi))
+    traces = failed_attempt_traces(fa_docs)
+    run.extra["failed_attempts_observed"] = len(traces)
+    for (i, phase, nm, b, a) in traces:
+        t = " && ".join(f"list_str_eqb {clstr(b[k])} {clstr(a[k])}" for k in range(3)) + f" && forallb (fun x => mem_str x {clstr(a[3])}) {clstr(b[3])}"
+        terms.append(t)
+        meta.append({"doc_name": fa_meta[i][0], "order": fa_meta[i][1], "doc": fa_docs[i], "site": f"failed attempt of {phase} {nm}",
+                     "before": {"classes_by_name": b[0], "classes_by_reference": b[1], "models_to_process": b[2]},
+                     "after": {"classes_by_name": a[0], "classes_by_reference": a[1], "models_to_process": a[2]},
+                     "note": "a failed attempt of _create_schemas/_process_models left a trace in the Schemas the retry starts from"})
+        run.note_case({"doc": fa_meta[i][0], "order": fa_meta[i][1], "failed_attempt": f"{phase}:{nm}"}, nontrivial=True, kind="failed-attempt-trace")
     bad = run_cases(HDR, terms, shard=250)
     run.corr = {"cases": len(terms), "mismatches": len(bad), "sort_cases": n_sort,
-                "what": "jinja_sort/py_sorted == Jinja sort filter/sorted() on random lists; lines written by every loop site of every generated module == Order.emit (sorted flag from gen/GenLoops.v) applied to the set in the process's enumeration order"}
-    for i in bad[:5]:
+                "failed_attempt_cases": len(terms) - n_emit,
+                "what": "a failed attempt of update_schemas_with_data/process_model leaves classes_by_name, classes_by_reference, models_to_process as they were (dependencies only grow); jinja_sort/py_sorted == Jinja sort filter/sorted() on random lists; lines written by every loop site of every generated module == Order.emit (sorted flag from gen/GenLoops.v) applied to the set in the process's enumeration order"}
+    for i in list(dict.fromkeys(bad[:5] + [j for j in bad if j >= n_emit][:5])):
         m = dict(meta[i])
+        if i >= n_emit:
+            run.violation("correspondence", m)
+            continue
         if i >= n_sort:
             m["model"] = coq_eval(HDR, terms[i].replace("chk ", "(fun f i k e o => match nth_site f i k with Some s => Some (emit (ls_sorted s) e) | None => None end) ", 1))[-600:]
         run.violation("correspondence", {**m, "note": "implementation's emission differs from Order.emit/jinja_sort"})
